@@ -48,6 +48,8 @@ class DataCollection:
         self.datasets: list[DataSet] = []
         self.write_to_disk = threading.Event()
         self.write_finished = threading.Event()
+        # makes "request a write" and "write completed" atomic with respect to each other
+        self._write_lock = threading.Lock()
 
         ex_base_path = self.metadata.expand_format(base_path)
         p = pathlib.Path(ex_base_path)
@@ -202,8 +204,9 @@ class DataCollection:
         for ds in self.datasets:
             ds.stage_for_write()
 
-        self.write_finished.clear()
-        self.write_to_disk.set()
+        with self._write_lock:
+            self.write_finished.clear()
+            self.write_to_disk.set()
 
         if not self.use_thread:
             self.blocking_write()
@@ -234,8 +237,9 @@ class DataCollection:
                 if self.write_to_disk.wait(0.5):
                     for ds in self.datasets:
                         ds.write()
-                    self.write_to_disk.clear()
-                    self.write_finished.set()
+                    with self._write_lock:
+                        self.write_to_disk.clear()
+                        self.write_finished.set()
         except KeyboardInterrupt:
             pass
         finally:
@@ -246,5 +250,6 @@ class DataCollection:
         if self.write_to_disk.wait(0.5):
             for ds in self.datasets:
                 ds.write()
-            self.write_to_disk.clear()
-            self.write_finished.set()
+            with self._write_lock:
+                self.write_to_disk.clear()
+                self.write_finished.set()
